@@ -13,54 +13,105 @@ Ltac cases H :=
   repeat match type of H with context [if ?c then _ else _] => destruct c eqn:? end;
   try discriminate H.
 
-Lemma classify_T s : classify s = WT -> s = std_T.
+Ltac finish :=
+  repeat match goal with E : (_ && _)%bool = true |- _ => apply andb_prop in E; destruct E end;
+  repeat match goal with E : Nat.eqb _ _ = true |- _ => apply Nat.eqb_eq in E; subst end;
+  try discriminate; try reflexivity.
+
+Lemma classify_T s : classify s = Val WT -> s = std_T.
 Proof.
-  destruct s as [[[s0 s1] s2] s3]. unfold classify.
+  destruct s as [[[s0 s1] s2] s3]. unfold classify, classify_body.
   destruct s0, s1, s2, s3; simpl; intros H; cases H; reflexivity.
 Qed.
 
-Lemma classify_R s u : classify s = WR u -> s = std_R u.
+Lemma classify_R s u : classify s = Val (WR u) -> s = std_R u.
 Proof.
-  destruct s as [[[s0 s1] s2] s3]. unfold classify.
-  destruct s0, s1, s2, s3; simpl; intros H; cases H; inversion H; subst;
-    repeat match goal with E : (_ && _)%bool = true |- _ => apply andb_prop in E; destruct E end;
-    repeat match goal with E : Nat.eqb _ _ = true |- _ => apply Nat.eqb_eq in E; subst end;
-    try discriminate; reflexivity.
+  destruct s as [[[s0 s1] s2] s3]. unfold classify, classify_body.
+  destruct s0, s1, s2, s3; simpl; intros H; cases H; inversion H; subst; finish.
 Qed.
 
-Lemma classify_L s u : classify s = WL u -> s = std_L u.
+Lemma classify_L s u : classify s = Val (WL u) -> s = std_L u.
 Proof.
-  destruct s as [[[s0 s1] s2] s3]. unfold classify.
-  destruct s0, s1, s2, s3; simpl; intros H; cases H; inversion H; subst;
-    repeat match goal with E : (_ && _)%bool = true |- _ => apply andb_prop in E; destruct E end;
-    repeat match goal with E : Nat.eqb _ _ = true |- _ => apply Nat.eqb_eq in E; subst end;
-    try discriminate; reflexivity.
+  destruct s as [[[s0 s1] s2] s3]. unfold classify, classify_body.
+  destruct s0, s1, s2, s3; simpl; intros H; cases H; inversion H; subst; finish.
 Qed.
+
+(* ---------------- no read through a NULL cell ---------------- *)
+(* classify_standard as it is now never dereferences an absent cell, whatever the four cells are *)
+Lemma classify_never_faults s : classify s <> Fault.
+Proof.
+  destruct s as [[[s0 s1] s2] s3]. unfold classify, classify_body.
+  destruct s0, s1, s2, s3; simpl; try discriminate;
+    repeat match goal with |- context [if ?c then _ else _] => destruct c end; discriminate.
+Qed.
+
+(* a standard with an absent cell is none of T, R, L *)
+Lemma classify_partial s : has_absent s = true -> classify s = Val WNone.
+Proof. destruct s as [[[s0 s1] s2] s3]. unfold classify, has_absent. intros ->. reflexivity. Qed.
+
+Lemma scan_never_faults stds : forall t r l, scan classify stds t r l <> Fault.
+Proof.
+  induction stds as [|s rest IH]; intros t r l; simpl; [discriminate|].
+  destruct (classify s) as [w|] eqn:E; [|exfalso; exact (classify_never_faults s E)].
+  simpl. destruct w; try discriminate;
+    match goal with |- (if ?b then _ else _) <> _ => destruct b end; try discriminate; apply IH.
+Qed.
+
+(* the dispatch of vnacal_new_solve never reads through a NULL S cell: for EVERY calibration type,
+   dimensions, counts and EVERY list of standards, including standards with absent cells *)
+Lemma dispatch_never_faults ty rows cols stds unknowns correlated m_error :
+  dispatch ty rows cols stds unknowns correlated m_error <> Fault.
+Proof.
+  unfold dispatch, dispatch_with, is_trl.
+  destruct (Nat.eqb rows 2 && Nat.eqb cols 2 && eight_term ty && Nat.eqb (length stds) 3 &&
+            Nat.eqb unknowns 2 && Nat.eqb correlated 0 && negb m_error); [|discriminate].
+  destruct (scan classify stds false false false) eqn:E; [discriminate|].
+  exfalso. exact (scan_never_faults stds _ _ _ E).
+Qed.
+
+(* finding D69 (fixed in /repo): the function as it was before the NULL test read through the
+   absent S11 of a single reflect on port 2 -- the reviewer's reproducer, in the model *)
+Lemma dispatch_before_D69_faults :
+  dispatch_before_D69 T8 2 2 [std_single2 (Unknown 0); std_single1 (Unknown 1); std_T] 2 0 false = Fault.
+Proof. reflexivity. Qed.
+
+(* the same standards with the code as it is: iterative solver, no fault *)
+Example dispatch_single_reflects :
+  dispatch T8 2 2 [std_single2 (Unknown 0); std_single1 (Unknown 1); std_T] 2 0 false = Val PathAuto /\
+  dispatch UE10 2 2 [std_T; std_single2 (Unknown 0); std_R 1] 2 0 false = Val PathAuto /\
+  dispatch TE10 2 2 [std_L 0; std_T; (Unknown 1, Absent, Absent, Known 3)] 2 0 false = Val PathAuto.
+Proof. repeat split; reflexivity. Qed.
 
 (* The analytic path is taken only for a 2x2 8-term calibration without error model whose
    three standards are exactly a perfect through, an equal unknown reflect and a matched
    reciprocal line with unknown transmission (in any order). *)
 Lemma trl_path_only_for_exact_shapes ty rows cols stds unknowns correlated m_error :
-  dispatch ty rows cols stds unknowns correlated m_error = PathTrl ->
+  dispatch ty rows cols stds unknowns correlated m_error = Val PathTrl ->
   rows = 2 /\ cols = 2 /\ eight_term ty = true /\ unknowns = 2 /\ correlated = 0 /\ m_error = false /\
   exists a b, Permutation stds [std_T; std_R a; std_L b].
 Proof.
-  unfold dispatch. destruct (is_trl ty rows cols stds unknowns correlated m_error) eqn:E;
-    [intros _ | destruct (Nat.eqb unknowns 0); discriminate].
-  unfold is_trl in E. repeat (apply andb_prop in E; destruct E as [E ?]).
+  unfold dispatch, dispatch_with, is_trl.
+  destruct (Nat.eqb rows 2 && Nat.eqb cols 2 && eight_term ty && Nat.eqb (length stds) 3 &&
+            Nat.eqb unknowns 2 && Nat.eqb correlated 0 && negb m_error) eqn:E;
+    [|simpl; destruct (Nat.eqb unknowns 0); discriminate].
+  destruct (scan classify stds false false false) as [b|] eqn:Hs; [|discriminate].
+  simpl. destruct b; [intros _ | destruct (Nat.eqb unknowns 0); discriminate].
+  repeat (apply andb_prop in E; destruct E as [E ?]).
   repeat match goal with H : Nat.eqb _ _ = true |- _ => apply Nat.eqb_eq in H end.
   match goal with H : negb m_error = true |- _ => apply negb_true_iff in H end.
   repeat (split; [assumption|]).
   destruct stds as [|x [|y [|z [|? ?]]]]; try discriminate.
-  match goal with H : scan _ _ _ _ = true |- _ => rename H into Hs end.
   simpl in Hs.
-  destruct (classify x) eqn:Cx; simpl in Hs; try discriminate;
-  destruct (classify y) eqn:Cy; simpl in Hs; try discriminate;
-  destruct (classify z) eqn:Cz; simpl in Hs; try discriminate;
+  destruct (classify x) as [wx|] eqn:Cx; simpl in Hs; try discriminate;
+  destruct wx; simpl in Hs; try discriminate;
+  destruct (classify y) as [wy|] eqn:Cy; simpl in Hs; try discriminate;
+  destruct wy; simpl in Hs; try discriminate;
+  destruct (classify z) as [wz|] eqn:Cz; simpl in Hs; try discriminate;
+  destruct wz; simpl in Hs; try discriminate;
   repeat match goal with
-         | H : classify _ = WT |- _ => apply classify_T in H
-         | H : classify _ = WR _ |- _ => apply classify_R in H
-         | H : classify _ = WL _ |- _ => apply classify_L in H
+         | H : classify _ = Val WT |- _ => apply classify_T in H
+         | H : classify _ = Val (WR _) |- _ => apply classify_R in H
+         | H : classify _ = Val (WL _) |- _ => apply classify_L in H
          end; subst.
   - exists u, u0. apply Permutation_refl.
   - exists u0, u. apply perm_skip. apply perm_swap.
@@ -71,38 +122,65 @@ Proof.
     eapply perm_trans; [apply perm_skip; apply perm_swap | apply perm_swap].
 Qed.
 
-(* conversely the exact shapes (any order is covered by the examples below) take it *)
+(* hence a calibration with a partial standard (single reflect, ...) never takes the analytic path *)
+Lemma partial_standard_not_trl ty rows cols stds unknowns correlated m_error s :
+  In s stds -> has_absent s = true ->
+  dispatch ty rows cols stds unknowns correlated m_error <> Val PathTrl.
+Proof.
+  intros Hin Ha H. apply trl_path_only_for_exact_shapes in H.
+  destruct H as (_ & _ & _ & _ & _ & _ & a & b & Hp).
+  pose proof (Permutation_in _ Hp Hin) as Hi.
+  destruct Hi as [E|[E|[E|[]]]]; subst s; discriminate.
+Qed.
+
+(* conversely the exact shapes take it, in all six orders *)
 Lemma exact_shapes_take_trl_path ty a b :
   eight_term ty = true ->
-  dispatch ty 2 2 [std_T; std_R a; std_L b] 2 0 false = PathTrl /\
-  dispatch ty 2 2 [std_L b; std_T; std_R a] 2 0 false = PathTrl /\
-  dispatch ty 2 2 [std_R a; std_L b; std_T] 2 0 false = PathTrl.
-Proof. intros H. unfold dispatch, is_trl. rewrite H. simpl. rewrite !Nat.eqb_refl. simpl. auto. Qed.
+  forall stds, Permutation stds [std_T; std_R a; std_L b] ->
+  dispatch ty 2 2 stds 2 0 false = Val PathTrl.
+Proof.
+  intros H stds Hp.
+  assert (Hl : length stds = 3) by (rewrite (Permutation_length Hp); reflexivity).
+  destruct stds as [|x [|y [|z [|? ?]]]]; try discriminate.
+  assert (Hx := Permutation_in x Hp (or_introl eq_refl)).
+  assert (Hy := Permutation_in y Hp (or_intror (or_introl eq_refl))).
+  assert (Hz := Permutation_in z Hp (or_intror (or_intror (or_introl eq_refl)))).
+  assert (Hnd : NoDup [x; y; z]).
+  { apply (Permutation_NoDup (Permutation_sym Hp)).
+    repeat constructor; simpl; intuition discriminate. }
+  unfold dispatch, dispatch_with, is_trl. rewrite H.
+  simpl in Hx, Hy, Hz.
+  destruct Hx as [Hx|[Hx|[Hx|[]]]], Hy as [Hy|[Hy|[Hy|[]]]], Hz as [Hz|[Hz|[Hz|[]]]];
+    subst x y z;
+    try (exfalso; inversion Hnd as [|? ? Hn1 Hn2]; inversion Hn2 as [|? ? Hn3 Hn4]; simpl in *; intuition congruence);
+    simpl; rewrite ?Nat.eqb_refl; reflexivity.
+Qed.
 
 (* TRL-shaped inputs that are not TRL go to the iterative solver *)
 Example not_trl_examples :
   (* mismatched line: S11 = S22 = the same known parameter *)
-  dispatch T8 2 2 [std_T; std_R 0; (Known 5, Unknown 1, Unknown 1, Known 5)] 2 0 false = PathAuto /\
+  dispatch T8 2 2 [std_T; std_R 0; (Known 5, Unknown 1, Unknown 1, Known 5)] 2 0 false = Val PathAuto /\
   (* reflect with different unknowns on the two ports *)
-  dispatch U8 2 2 [std_T; (Unknown 0, Zero, Zero, Unknown 2); std_L 1] 3 0 false = PathAuto /\
+  dispatch U8 2 2 [std_T; (Unknown 0, Zero, Zero, Unknown 2); std_L 1] 3 0 false = Val PathAuto /\
   (* asymmetric through *)
-  dispatch TE10 2 2 [(Zero, One, Known 7, Zero); std_R 0; std_L 1] 2 0 false = PathAuto /\
+  dispatch TE10 2 2 [(Zero, One, Known 7, Zero); std_R 0; std_L 1] 2 0 false = Val PathAuto /\
   (* correlated instead of unknown reflect *)
-  dispatch UE10 2 2 [std_T; (Corr 0, Zero, Zero, Corr 0); std_L 1] 2 1 false = PathAuto /\
+  dispatch UE10 2 2 [std_T; (Corr 0, Zero, Zero, Corr 0); std_L 1] 2 1 false = Val PathAuto /\
   (* error model given, 16-term type, fourth standard *)
-  dispatch T8 2 2 [std_T; std_R 0; std_L 1] 2 0 true = PathAuto /\
-  dispatch T16 2 2 [std_T; std_R 0; std_L 1] 2 0 false = PathAuto /\
-  dispatch T8 2 2 [std_T; std_R 0; std_L 1; (Zero, Zero, Zero, Zero)] 2 0 false = PathAuto.
+  dispatch T8 2 2 [std_T; std_R 0; std_L 1] 2 0 true = Val PathAuto /\
+  dispatch T16 2 2 [std_T; std_R 0; std_L 1] 2 0 false = Val PathAuto /\
+  dispatch T8 2 2 [std_T; std_R 0; std_L 1; (Zero, Zero, Zero, Zero)] 2 0 false = Val PathAuto.
 Proof. repeat split; reflexivity. Qed.
 
 (* ---------------- write-back ---------------- *)
 Section Writeback.
 Variables F V : Type.
 Variable F_eqb : F -> F -> bool.
+Variable f0 : F.
 Hypothesis F_eqb_eq : forall a b, F_eqb a b = true <-> a = b.
 Notation lookup := (lookup F V F_eqb).
 Notation get := (get F V F_eqb).
-Notation writeback := (writeback F V).
+Notation writeback := (writeback F V f0).
 
 Lemma lookup_nth fs : forall vs i df dv, NoDup fs -> length fs = length vs -> i < length fs ->
   lookup fs vs (nth i fs df) = Some (nth i vs dv).
@@ -116,19 +194,41 @@ Proof.
     + apply IH; auto. apply Nat.succ_lt_mono. exact Hi.
 Qed.
 
+(* the steps of the write-back leave exactly the calibration grid in the parameter object,
+   whether or not the vector was reallocated *)
+Lemma writeback_grid old fs vs : pf F V (writeback old fs vs) = fs.
+Proof.
+  unfold DispatchModel.writeback, memcpy_over. simpl.
+  destruct (Nat.eqb (length (pf F V old)) (length fs)) eqn:E.
+  - apply Nat.eqb_eq in E. rewrite <- E, skipn_all. apply app_nil_r.
+  - rewrite <- (repeat_length f0 (length fs)) at 1. rewrite skipn_all. apply app_nil_r.
+Qed.
+
 (* after a solve, the value of the parameter at every calibration frequency of THAT solve is
    the solved value, whatever the parameter held before *)
 Lemma writeback_exact old fs vs i df dv :
   NoDup fs -> length fs = length vs -> i < length fs ->
-  get (writeback true old fs vs) (nth i fs df) = Some (nth i vs dv).
-Proof. intros. unfold get, writeback. simpl. apply lookup_nth; assumption. Qed.
+  get (writeback old fs vs) (nth i fs df) = Some (nth i vs dv).
+Proof.
+  intros. unfold DispatchModel.get. rewrite writeback_grid. simpl. apply lookup_nth; assumption.
+Qed.
 End Writeback.
 
-(* the form that copies the grid only when the count changed keeps a stale grid *)
-Lemma writeback_stale_grid_refuted :
+(* model variant (seeded change C02-1, not the code): copying the grid only inside the
+   reallocation branch keeps a stale grid when the count is unchanged *)
+Lemma model_variant_writeback_stale_grid :
   exists old fs vs, NoDup fs /\ length fs = length vs /\
-    get nat nat Nat.eqb (writeback nat nat false old fs vs) (nth 0 fs 0) <> Some (nth 0 vs 0).
+    get nat nat Nat.eqb (writeback_variant_copy_on_realloc nat nat 0 old fs vs) (nth 0 fs 0) <> Some (nth 0 vs 0).
 Proof.
   exists (PObj nat nat [1; 2] [10; 20]), [3; 4], [30; 40].
   split; [repeat constructor; simpl; intuition discriminate|]. split; [reflexivity|]. simpl. discriminate.
 Qed.
+
+(* all hypotheses of writeback_exact at once: a parameter solved before on a grid of the same
+   length is re-solved on another grid *)
+Example writeback_exact_instance :
+  let old := PObj nat nat [1; 2] [10; 20] in
+  NoDup [3; 4] /\ length [3; 4] = length [30; 40] /\
+  get nat nat Nat.eqb (writeback nat nat 0 old [3; 4] [30; 40]) 4 = Some 40 /\
+  get nat nat Nat.eqb (writeback nat nat 0 (PObj nat nat [7] [70]) [3; 4] [30; 40]) 3 = Some 30.
+Proof. split; [repeat constructor; simpl; intuition discriminate|]. repeat split. Qed.
